@@ -601,6 +601,7 @@ func main() {
 	defer os.RemoveAll(root)
 	kit.WriteFile(root, "404.html", "CUSTOM-404")
 	kit.WriteFile(root, "plain.txt", "PLAIN")
+	overlapPhase(rep, root)
 	logging(rep, root)
 	placeholders(rep)
 	rotation(rep, root)
